@@ -361,8 +361,10 @@ package exec
 //@   ensures  lost-is-requeued: implies(task.state == TaskLost, has(s.wait, headOf(task)))
 //@   ensures  otherwise-awaited-again: implies(task.state == TaskInit || task.state == TaskWaiting || task.state == TaskRunning, s.todo[task])
 //@   ensures  others-stay-pending: forall(x, implies((*Task)(x) != task, s.pending[(*Task)(x)] == old(s.pending[(*Task)(x)])))
+//@   ensures  started-only-when-ready: forall(x, implies(s.todo[(*Task)(x)] && !old(s.todo[(*Task)(x)]) && (*Task)(x) != task && ((*Task)(x).state == TaskInit || (*Task)(x).state == TaskLost), readyToStart(s, (*Task)(x))))
 //@   modifies s.wait, s.wait[:], s.todo[:], s.pending[:], s.counts[:], s.deps[:], maps(*Task, struct{}), s.err, maps(*Task, int)
 //@   loop 1 invariant stateOK(s) && tasksOK() && waitOK(s) && depsOK(s) && !s.pending[arg0] && forall(x, implies((*Task)(x) != arg0, s.pending[(*Task)(x)] == old(s.pending[(*Task)(x)]))) && implies(old(s.err) != nil, s.err == old(s.err)) && forall(j, 0, len(range_coll), range_coll[j] != nil)
+//@   loop 1 invariant started-only-when-ready: forall(x, implies(s.todo[(*Task)(x)] && !old(s.todo[(*Task)(x)]) && ((*Task)(x).state == TaskInit || (*Task)(x).state == TaskLost), readyToStart(s, (*Task)(x))))
 
 //@ extern func exec.TaskName.String
 //@   modifies nothing
@@ -816,3 +818,91 @@ package exec
 //@   ensures  closed: r.readCloser == nil && r.sliceioReader == nil
 //@   ensures  idempotent: implies(old(r.readCloser) == nil, err == nil)
 //@   modifies r.readCloser, r.sliceioReader, WCloser.zcloses, WCloser.zcloseErr
+
+// ---- C15: the in-memory store publishes a partition only through put (Commit), exactly once, and Open/Stat/Discard
+// ---- see exactly what was published. stored(m, t, p) is the abstract view "partition p of task t is readable".
+
+//@ spec func msOK(m *memoryStore) bool = m != nil && m.tasks != nil && m.counts != nil && forall(t, TaskName, len(m.tasks[t]) == len(m.counts[t]))
+//@ spec func stored(m *memoryStore, t TaskName, p int) bool = 0 <= p && p < len(m.tasks[t]) && m.tasks[t][p] != nil
+
+//@ func exec.(*memoryStore).get (task, partition) (b, n)
+//@   requires msOK(m) && partition >= 0
+//@   ensures  reads-the-published-bytes: (b != nil) == stored(m, task, partition) && implies(b != nil, b == m.tasks[task][partition] && n == m.counts[task][partition])
+//@   modifies nothing
+
+//@ func exec.(*memoryStore).put (task, partition, p, count) (err)
+//@   requires msOK(m) && partition >= 0
+//@   ensures  rep: msOK(m)
+//@   ensures  published-once: (err == nil) == !old(stored(m, task, partition))
+//@   ensures  now-stored: stored(m, task, partition)
+//@   ensures  content: implies(err == nil, len(m.tasks[task][partition]) == len(p) && implies(p != nil, m.tasks[task][partition] == p) && m.counts[task][partition] == count)
+//@   ensures  existing-kept: implies(err != nil, m.tasks[task][partition] == old(m.tasks[task][partition]) && m.counts[task][partition] == old(m.counts[task][partition]))
+//@   ensures  other-partitions-untouched: forall(q, 0, old(len(m.tasks[task])), implies(q != partition, m.tasks[task][q] == old(m.tasks[task][q]) && m.counts[task][q] == old(m.counts[task][q])))
+//@   ensures  nothing-else-published: forall(q, 0, len(m.tasks[task]), implies(q >= old(len(m.tasks[task])) && q != partition, m.tasks[task][q] == nil))
+//@   ensures  other-tasks-untouched: forall(t, TaskName, implies(t != task, m.tasks[t] == old(m.tasks[t]) && m.counts[t] == old(m.counts[t])))
+//@   modifies m.tasks[:], m.counts[:], elems([]byte), elems(int64)
+//@   loop 1 invariant same-maps: m != nil && m.tasks == old(m.tasks) && m.counts == old(m.counts)
+//@   loop 1 invariant lens: len(m.tasks[task]) == len(m.counts[task]) && len(m.tasks[task]) >= old(len(m.tasks[task]))
+//@   loop 1 invariant old-kept: forall(q, 0, old(len(m.tasks[task])), m.tasks[task][q] == old(m.tasks[task][q]) && m.counts[task][q] == old(m.counts[task][q]))
+//@   loop 1 invariant new-nil: forall(q, 0, len(m.tasks[task]), implies(q >= old(len(m.tasks[task])), m.tasks[task][q] == nil))
+//@   loop 1 invariant others: forall(t, TaskName, implies(t != task, m.tasks[t] == old(m.tasks[t]) && m.counts[t] == old(m.counts[t])))
+
+// Commit is the only publisher: it hands the writer's buffered bytes to put for the writer's own (task, partition).
+//@ func exec.(*memoryWriter).Commit (ctx, count) (err)
+//@   requires m != nil && msOK(m.store) && m.partition >= 0
+//@   ensures  rep: msOK(m.store)
+//@   ensures  published-once: (err == nil) == !old(stored(m.store, m.task, m.partition))
+//@   ensures  now-stored: stored(m.store, m.task, m.partition)
+//@   ensures  other-tasks-untouched: forall(t, TaskName, implies(t != m.task, m.store.tasks[t] == old(m.store.tasks[t]) && m.store.counts[t] == old(m.store.counts[t])))
+//@   ensures  other-partitions-untouched: forall(q, 0, old(len(m.store.tasks[m.task])), implies(q != m.partition, m.store.tasks[m.task][q] == old(m.store.tasks[m.task][q])))
+//@   modifies m.store.tasks[:], m.store.counts[:], elems([]byte), elems(int64)
+
+// Create publishes nothing: it refuses a partition that is already stored and otherwise returns a writer bound to
+// exactly (task, partition) of this store. Discarding a writer publishes nothing either.
+//@ func exec.(*memoryStore).Create (ctx, task, partition) (w, err)
+//@   requires msOK(m) && partition >= 0
+//@   ensures  refuses-stored: (err != nil) == stored(m, task, partition) && (err == nil) == (w != nil)
+//@   ensures  bound: implies(err == nil, hastype(w, *memoryWriter) && unbox(w, *memoryWriter) != nil && unbox(w, *memoryWriter).store == m && unbox(w, *memoryWriter).task == task && unbox(w, *memoryWriter).partition == partition)
+//@   modifies nothing
+
+//@ func exec.(*memoryWriter).Discard
+//@   modifies nothing
+
+// Open succeeds exactly for a stored partition and an offset within it; Stat reports exactly the published size and count.
+//@ func exec.(*memoryStore).Open (ctx, task, partition, offset) (rc, err)
+//@   requires msOK(m) && partition >= 0 && offset >= 0
+//@   ensures  only-published: (err == nil) == (stored(m, task, partition) && offset <= len(m.tasks[task][partition])) && (err == nil) == (rc != nil)
+//@   ensures  from-offset: implies(err == nil, lastBytesReader.arr == m.tasks[task][partition].arr && lastBytesReader.off == m.tasks[task][partition].off + offset && len(lastBytesReader) == len(m.tasks[task][partition]) - offset)
+//@   modifies lastBytesReader
+
+//@ func exec.(*memoryStore).Stat (ctx, task, partition) (info, err)
+//@   requires msOK(m) && partition >= 0
+//@   ensures  only-published: (err == nil) == stored(m, task, partition)
+//@   ensures  as-published: implies(err == nil, info.Size == len(m.tasks[task][partition]) && info.Records == m.counts[task][partition])
+//@   modifies nothing
+
+// Discard unpublishes exactly (task, partition).
+//@ func exec.(*memoryStore).Discard (ctx, task, partition) (err)
+//@   requires msOK(m) && partition >= 0 && ctx != nil
+//@   ensures  rep: msOK(m)
+//@   ensures  gone: !stored(m, task, partition)
+//@   ensures  others-untouched: forall(q, 0, len(m.tasks[task]), implies(q != partition, m.tasks[task][q] == old(m.tasks[task][q]))) && len(m.tasks[task]) == old(len(m.tasks[task]))
+//@   ensures  other-tasks-untouched: forall(t, TaskName, m.tasks[t] == old(m.tasks[t]) && m.counts[t] == old(m.counts[t]))
+//@   modifies elems([]byte)
+
+// ---- readers of remote task output (C15/C06): verified instead of assumed ----
+
+// A machine reader is a fresh openerAtReader over exactly the given machine and task partition; read errors of the
+// machinery have their severity revised (they are not application errors).
+//@ func exec.newMachineReader (machine, taskPartition) (r)
+//@   ensures  r != nil && fresh(r) && r.ReviseSeverity && r.readCloser == nil && r.sliceioReader == nil
+//@   ensures  source: hastype(r.OpenerAt, machineTaskPartition) && unbox(r.OpenerAt, machineTaskPartition).Machine == machine && unbox(r.OpenerAt, machineTaskPartition).TaskPartition == taskPartition
+//@   modifies nothing
+
+// The location of a task's output is the machine its location index names; a task index or a location index outside
+// the request's tables is a panic (contained by the caller's recover), never another machine's address.
+//@ func exec.(*taskRunRequest).location (taskIndex) (addr)
+//@   requires r != nil
+//@   panics_if taskIndex < 0 || taskIndex >= len(r.Locations) || r.Locations[taskIndex] < 0 || r.Locations[taskIndex] >= len(r.Machines)
+//@   ensures  addr == r.Machines[r.Locations[taskIndex]]
+//@   modifies nothing
